@@ -252,3 +252,26 @@ func rleDecode(name string, data []byte, max int) ([]byte, error) {
 	}
 	return out.Bytes(), nil
 }
+
+// simCodec wraps the library's own proto / JSON marshalling behind the
+// exported Codec seam and fails on marked messages: a fault injected at the
+// point where user data enters or leaves the wire format.
+type simCodec struct {
+	name  string
+	inner connect.Codec
+}
+
+// marshalFailMarker: a message whose value starts with this cannot be
+// marshalled (as a proto3 string with invalid UTF-8 cannot).
+var marshalFailMarker = []byte("\xffMARSHAL-FAILS")
+
+func (c *simCodec) Name() string { return c.name }
+
+func (c *simCodec) Marshal(m any) ([]byte, error) {
+	if bv, ok := m.(*Msg); ok && bytes.HasPrefix(bv.GetValue(), marshalFailMarker) {
+		return nil, errors.New("sim: message cannot be marshalled")
+	}
+	return c.inner.Marshal(m)
+}
+
+func (c *simCodec) Unmarshal(b []byte, m any) error { return c.inner.Unmarshal(b, m) }
